@@ -238,6 +238,12 @@ def enumerate_cases(tier):
                             others.append(o)
                         yield "join-align-grid", {"op": op, "ds": ds3, "dsdims": ["x", "y", "z"], "dim": "x",
                                                   "p": {"others": others, "align": True, "keys": None, "sort": sort, "reorder": n == 3}}
+    # identical (unsorted) axes in every dataset with align=True, sort=True: nothing to align, but the sorting still applies
+    for op in ("stack_ds", "concatenate_ds"):
+        for n in (2, 3):
+            others = [({"x": [10 * (j + 1) + 1, 10 * (j + 1)]} if op == "concatenate_ds" else {}) for j in range(n - 1)]
+            for sort in (True, False):
+                yield "join-align-grid", {"op": op, "ds": ds3, "dsdims": ["x", "y", "z"], "dim": "x", "p": {"others": others, "align": True, "keys": None, "sort": sort, "reorder": False}}
     # the same variables inserted in another order in the later datasets (variables are matched by name), without alignment
     two = {"vars": [["v0", {"dims": ["x"], "labels": [[3, 1]], "vk": "f", "base": 0, "attrs": {}}], ["v1", {"dims": ["x"], "labels": [[3, 1]], "vk": "f", "base": 40, "attrs": {}}],
                     ["v2", {"dims": ["x", "y"], "labels": [[3, 1], ["a", "b"]], "vk": "i", "base": 70, "attrs": {}}]], "attrs": dict(DS_ATTRS)}
